@@ -22,6 +22,7 @@ import hashlib
 import itertools
 import json
 import os
+import shutil
 import subprocess
 import warnings
 import sys
@@ -93,6 +94,128 @@ def top_fragments(root):
                 if c.tag == "fragment" and any(x.tag == "b" for x in c):
                     out.append(c)
     return out
+
+
+MARK_SETS = {
+    "A": [("Charge", "-1"), ("Radical", "Doublet"), ("Isotope", "14")],
+    "B": [("Charge", "1"), ("Radical", "Singlet"), ("Isotope", "3")],
+}
+
+
+def atom_classes(fr):
+    """ordinary atom nodes of a top-level fragment by where they are drawn: in the fragment itself,
+    inside a contracted group, the atom of a contracted group that carries the group's connection"""
+    plain = lambda n: n.tag == "n" and n.get("NodeType") is None
+    out = {"top-level": [n for n in fr if plain(n)], "inside-group": [], "group-attachment-atom": []}
+    for holder in fr:
+        if holder.tag != "n":
+            continue
+        for inner in holder.findall("./fragment"):
+            eps = {n.get("id") for n in inner if n.tag == "n" and n.get("NodeType") == "ExternalConnectionPoint"}
+            att = set()
+            for b in inner:
+                if b.tag == "b":
+                    if b.get("B") in eps:
+                        att.add(b.get("E"))
+                    if b.get("E") in eps:
+                        att.add(b.get("B"))
+            for n in inner:
+                if plain(n):
+                    out["group-attachment-atom" if n.get("id") in att else "inside-group"].append(n)
+    return out
+
+
+def annotate(root, cls, which):
+    """draws a formal charge, a radical and an isotope on atoms of one class in every fragment"""
+    for fr in top_fragments(root):
+        cand = atom_classes(fr)[cls]
+        if not cand:
+            continue
+        for j, (attr, val) in enumerate(MARK_SETS[which]):
+            n = cand[j % len(cand)]
+            n.set(attr, val)
+
+
+def _centre(e):
+    bb = e.get("BoundingBox")
+    if bb:
+        l, t, r, b = map(float, bb.split())
+        return ((l + r) / 2, (t + b) / 2)
+    p = e.get("p")
+    return tuple(map(float, p.split()[:2])) if p else None
+
+
+def labelled_pairs(root):
+    """[(label element, fragment element)] where the drawing settles the pair (the fragment nearest to
+    the label in city-block and in Euclidean distance is the same one and lies above it)"""
+    from mc.props.c13_walk import is_label
+
+    page = root.find("./page")
+    labels = [t for holder in [page] + page.findall("./group") for t in holder if t.tag == "t" and is_label(t)]
+    frs = [(fr, _centre(fr)) for fr in top_fragments(root) if _centre(fr)]
+    out = []
+    for t in labels:
+        lc = _centre(t)
+        if lc is None or not frs:
+            continue
+        f1 = min(frs, key=lambda x: abs(x[1][0] - lc[0]) + abs(x[1][1] - lc[1]))
+        f2 = min(frs, key=lambda x: (x[1][0] - lc[0]) ** 2 + (x[1][1] - lc[1]) ** 2)
+        if f1[0] is f2[0] and f1[1][1] < lc[1]:
+            out.append((t, f1[0]))
+    return out
+
+
+def movable_targets(root):
+    """indices j of settled pairs whose fragment stands (nearly) straight above its label"""
+    ps = labelled_pairs(root)
+    out = []
+    for j, (t, fr) in enumerate(ps):
+        lc, fc = _centre(t), _centre(fr)
+        d = lc[1] - fc[1]
+        if d > 5 and abs(fc[0] - lc[0]) <= 0.35 * d and len(ps) > 1:
+            out.append(j)
+    return out
+
+
+def _shift(e, dx, dy):
+    for x in e.iter():
+        if "p" in x.attrib:
+            v = x.get("p").split()
+            if len(v) == 2:
+                x.set("p", f"{_fmt(float(v[0]) + dx)} {_fmt(float(v[1]) + dy)}")
+        if "BoundingBox" in x.attrib:
+            v = list(map(float, x.get("BoundingBox").split()))
+            if len(v) == 4:
+                x.set("BoundingBox", " ".join(_fmt(q) for q in (v[0] + dx, v[1] + dy, v[2] + dx, v[3] + dy)))
+
+
+def move_pair(root, j, side):
+    """another labelled fragment (with its label) is moved diagonally above label j: farther from the
+    label than its own fragment in city-block distance, nearer in Euclidean distance"""
+    ps = labelled_pairs(root)
+    tj, fj = ps[j]
+    lc, fc = _centre(tj), _centre(fj)
+    d = lc[1] - fc[1]
+    ti, fi = next((t, f) for n, (t, f) in enumerate(ps[j + 1 :] + ps[:j]) if f is not fj and t is not tj)
+    box = lambda e: tuple(map(float, e.get("BoundingBox").split())) if e.get("BoundingBox") else None
+    bi, bj = box(fi), box(fj)
+    choice = None
+    for a, b in ((0.62, 0.62), (0.75, 0.45), (0.85, 0.3), (0.45, 0.75), (0.7, 0.55), (0.8, 0.4)):
+        if not (a + b > 1.05 and (a * a + b * b) ** 0.5 < 0.95):
+            continue
+        tx, ty = lc[0] + side * a * d, lc[1] - b * d
+        if choice is None:
+            choice = (tx, ty)
+        if bi and bj:
+            w, h = (bi[2] - bi[0]) / 2, (bi[3] - bi[1]) / 2
+            overlap = not (tx + w < bj[0] or tx - w > bj[2] or ty + h < bj[1] or ty - h > bj[3])
+            if not overlap:
+                choice = (tx, ty)
+                break
+    ci = _centre(fi)
+    dx, dy = choice[0] - ci[0], choice[1] - ci[1]
+    _shift(fi, dx, dy)
+    _shift(ti, dx, dy)
 
 
 def _swap_children(parent, a, b):
@@ -323,6 +446,10 @@ def build_variant(src, steps, dst):
                     n.set("AtomNumber", f"L{n_new}")
         elif kind == "reorder-nodes":
             reorder_nodes(root, st[1], st[2] if len(st) > 2 else None)
+        elif kind == "annotate":
+            annotate(root, st[1], st[2])
+        elif kind == "move-pair":
+            move_pair(root, st[1], st[2])
         elif kind == "add":
             add_content(root, st[1], st[2])
         elif kind == "identity":
@@ -346,6 +473,10 @@ def vclass(steps):
             names.append(f"add-{st[1]}")
         elif st[0] == "reorder-nodes":
             names.append("reorder-nodes")
+        elif st[0] == "annotate":
+            names.append(f"annotate-{st[1]}")
+        elif st[0] == "move-pair":
+            names.append("move-pair")
         else:
             names.append(st[0])
     return "+".join(names) if names else "identity"
@@ -493,10 +624,11 @@ def constitution(fr, obs):
             else:
                 bad.append(("connectivity", "same atoms and bond orders but a different graph than drawn"))
     else:
+        where = lambda sel: "inside-contracted-group" if any(sel(a) and len(k) > 1 for k, a in fr.atoms.items()) else "outermost-atoms"
         if obs["charge"] != fr.total_charge():
-            bad.append(("total-charge", f"molecule charge {obs['charge']!r}, drawn formal charges sum to {fr.total_charge()}"))
+            bad.append((f"total-charge[drawn-charges-{where(lambda a: a.charge)}]", f"molecule charge {obs['charge']!r}, drawn formal charges sum to {fr.total_charge()}"))
         if obs["mult"] != fr.multiplicity():
-            bad.append(("multiplicity", f"multiplicity {obs['mult']!r}, drawn radicals give {fr.multiplicity()}"))
+            bad.append((f"multiplicity[drawn-radicals-{where(lambda a: a.spin)}]", f"multiplicity {obs['mult']!r}, drawn radicals give {fr.multiplicity()}"))
     return mapping, reordered, bad
 
 
@@ -602,6 +734,7 @@ class FragGraph:
 # =================================================================================================
 # one file (one variant): parse, compare with the walk
 # =================================================================================================
+recs_draw: dict = {}  # id(recs dict) -> the independent walk of that file
 recs_dups: dict = {}  # id(recs dict) -> labels the drawing carries more than once
 
 
@@ -929,6 +1062,7 @@ def analyse(ctx, src_name, path, steps, only=None, count=True, base=None):
                 }
             )
     recs_dups[id(recs)] = set(D.duplicates)
+    recs_draw[id(recs)] = D
     return recs
 
 
@@ -993,6 +1127,65 @@ def anchors(ctx, viol, src_name, vc, k, fr, g, mapping, coords):
 # =================================================================================================
 # relations between a variant and the unchanged file
 # =================================================================================================
+def nearest_above_l1(D, label):
+    if D is None or label not in D.labels:
+        return None
+    lx, ly = D.labels[label]["centre"]
+    above = [f for f in D.fragments if f.centre[1] < ly]
+    if not above:
+        return None
+    return min(above, key=lambda f: (abs(f.centre[0] - lx) + abs(f.centre[1] - ly), f.index)).xml_id
+
+
+def path_history(ctx, src_name, jobs, work):
+    """one path, several drawings in turn: variant A is written to P and parsed, then B is written to
+    the same P and parsed, then A again.  What P gives must be what the same bytes give on a fresh path."""
+    import molli as ml
+    from molli.ftypes.cdxml import CDXMLFile
+
+    usable = [j for j in jobs if any(r.digest for r in j[2].values())]
+    if len(usable) < 2:
+        return
+    a = usable[0]
+    others = [j for j in usable[1:] if any(st[0] in ("mirror", "annotate", "atomnumber") for st in j[1])][:2] or usable[1:2]
+    seq = []
+    for b in others:
+        seq += [a, b]
+    seq.append(a)
+    P = Path(work) / "one_path.cdxml"
+    for n, (src, steps, recs) in enumerate(seq):
+        shutil.copyfile(src, P)
+        labels = [k for k, r in recs.items() if r.digest]
+        try:
+            with warnings.catch_warnings():
+                warnings.simplefilter("ignore")
+                f = CDXMLFile(P)
+        except Exception as e:
+            ctx.violation(f"path-history:open-raised:{type(e).__name__}", f"{src_name}: CDXMLFile on a path that was overwritten raised {e}", {"file": src_name, "steps": steps, "label": None, "extra": "path-history"})
+            return
+        ctx.count(transitions=1)
+        for i, k in enumerate(labels):
+            routes = [("CDXMLFile", lambda: c13_sub.lookup(f, k))]
+            if i < 3:
+                routes.append(("ml.load", lambda: c13_sub.observe(ml.load(P, fmt="cdxml", key=k))))
+            for route, get in routes:
+                try:
+                    with warnings.catch_warnings():
+                        warnings.simplefilter("ignore")
+                        o = get()
+                except Exception as e:
+                    o = ("EXC", type(e).__name__, None, str(e)[:100])
+                ctx.count(transitions=1)
+                ctx.add_note("path_history_lookups")
+                if not isinstance(o, dict) or c13_sub.digest(o) != recs[k].digest:
+                    ctx.violation(
+                        f"path-history[{route}]:result-is-not-that-of-the-file-now-at-the-path",
+                        f"{src_name}[{k!r}]: drawing {n + 1} of {len(seq)} written to one and the same path ({vclass(steps)}): what {route} returns differs from the same bytes parsed at a fresh path",
+                        {"file": src_name, "steps": steps if steps else (seq[1][1] if len(seq) > 1 else []), "label": k, "extra": "path-history"},
+                    )
+                    return
+
+
 def compare(ctx, src_name, steps, back, base, var, mirrored_frag_ids=None):
     vc = vclass(steps)
     mirrored = is_mirrored(steps)
@@ -1011,12 +1204,20 @@ def compare(ctx, src_name, steps, back, base, var, mirrored_frag_ids=None):
         def viol(sig, what, extra=None):
             ctx.violation(sig, what, {"file": src_name, "steps": steps, "label": k, "extra": extra})
 
+        if any(st[0] == "move-pair" for st in steps):
+            # a fragment was moved: the label still belongs to its fragment where the documented rule
+            # (the fragment nearest in city-block distance among those above the label) says so
+            if nearest_above_l1(recs_draw.get(id(base)), k) is None or nearest_above_l1(recs_draw.get(id(base)), k) != nearest_above_l1(recs_draw.get(id(var)), k):
+                ctx.add_note("labels_reassigned_by_the_drawing_itself_after_a_move")
+                continue
         if rb.picked is not None and rv.picked is not None:
             if back.get(rv.picked, rv.picked) != rb.picked:
                 viol(f"variant[{vc}]:label-resolves-to-other-fragment", f"{src_name}[{k!r}]: resolves to fragment id={rb.picked} in the bundled file and to id={back.get(rv.picked, rv.picked)} after {vc}")
                 continue
         if rb.obs is None or rv.obs is None:
             continue
+        if any(st[0] == "annotate" for st in steps):
+            continue  # other marks are drawn: judged against the walk of the rewritten file itself
         if any(st[0] == "reorder-nodes" for st in steps):
             if rb.token is None or rv.token is None or not (rb.ok and rv.ok):
                 continue
@@ -1163,6 +1364,12 @@ def menu(ctx, path):
     singles += [["reorder-nodes", "reverse"], ["reorder-nodes", "begin-after-end"], ["reorder-nodes", "begin-before-end"]]
     if ctx.thorough:
         singles += [["reorder-nodes", "swap-stereo-bond", j] for j in range(n_marked_bonds(path))]
+    singles += [["annotate", cls, which] for cls in ("top-level", "inside-group", "group-attachment-atom") for which in ("A", "B")]
+    try:
+        targets = movable_targets(ET.parse(path).getroot())
+    except Exception:
+        targets = []
+    singles += [["move-pair", j, side] for j in (targets if ctx.thorough else targets[:2]) for side in (-1, 1)]
     singles += [["add", "lone-atom", "between-labels-and-fragments"]]
     singles += [["add", "far-fragment", "last"], ["add", "plain-text", "first"], ["add", "empty-group", "first"]]
     if ctx.thorough:
@@ -1204,6 +1411,7 @@ def check_file(ctx, path, variants=None, only=None, count_base=True):
             mf = {top_fragments(root)[steps[0][1]].get("id")}
         compare(ctx, name, steps, back, base, var, mf)
         jobs.append((dst, steps, var))
+    path_history(ctx, name, jobs, work)
     second_process(ctx, name, jobs)
 
 
@@ -1232,6 +1440,9 @@ def run(ctx):
         "added content: a bond-less (lone atom) fragment, an unlabelled bonded fragment far from everything, a text that is not bold and an empty group carry no label and none of the labelled chemistry: every label must give a molecule equal in full (atoms, labels, bonds, coordinates bit for bit, charge, multiplicity, name) to the one from the untouched file",
         "exact mirror relation: where all stereo marks of a fragment are plain Bold/Hash bonds or wedges on chain (non-ring) bonds of the outermost fragment, the model of the mirrored drawing must be the z -> -z image of the model coordinate by coordinate (1e-9 A); it is not demanded for wedge marks on ring bonds (the parser's ring-fusion displacement moves y by sign*0.5, 1 A off an exact mirror image on the unchanged tree), for marks inside contracted groups (re-oriented by join's clash search) and for multi-attachments - there only the signs of the signed volumes are compared",
         "listing order of the nodes: listing the nodes of a fragment backwards, or swapping the two nodes of a stereo bond in the document, changes nothing that is drawn: atoms are matched by drawing position and the per-centre handedness and the full coordinates (1e-9 A) must be those of the bundled file; for fragments with contracted groups the coordinates of the outermost atoms are compared up to a common translation and the groups' atoms through the handedness only (join orients a group by a clash search over what was joined before it, so the rotamer follows the listing order on the unchanged tree)",
+        "annotation rewrites draw a formal charge, a radical and an isotope on an ordinary atom of the fragment itself, on an atom inside a contracted group and on the group's attachment atom; the molecule's atoms, charge and multiplicity must follow the marks as drawn in the rewritten file",
+        "move-pair rewrites put another labelled fragment diagonally above a label (farther than the label's own fragment in city-block distance, nearer in Euclidean distance); a label keeps its fragment wherever the documented rule - nearest fragment above in city-block distance - still names the same fragment in the rewritten drawing",
+        "path history: a path whose file is overwritten gives what its present bytes give on a fresh path, for a new CDXMLFile and for ml.load(path, key=)",
         "atom order is not demanded: the parsed molecule is matched to the drawing in document order and otherwise by graph isomorphism (networkx)",
     ]
     files = bundled_files()
